@@ -2,7 +2,7 @@ import OpcuaModel.Base.Loop
 import OpcuaModel.Model.SrvSec
 /-
   Driver for C30.
-    enable <p:m> …                              → <p:m> … | -        (EnableSecurity calls in order → cfg.enabledSec after server.New)
+    enable <p:m> …                              → <p:m> … | -        (EnableSecurity calls in order → cfg.enabledSec)
     endp <n> <url>×n <p:m> …                    → <url>|<p>|<m> … | -   (initEndpoints)
     getep <requrl> <n> <url>×n <p:m> …          → <url>|<p>|<m> … | -   (GetEndpoints)
     opn <policy> <cert> <body> <ver> <tok> <mode> <p:m> … → accept <policy> <mode> | reject
@@ -41,7 +41,7 @@ def secsOf (ps : List (String × Nat)) : List Sec := ps.map fun p => ⟨p.1, p.2
 def handle : List String → String
   | "enable" :: rest =>
     match parsePairs rest with
-    | some calls => showSecs (configured calls)
+    | some calls => showSecs (enabledOf calls)
     | none => "bad-op"
   | "endp" :: n :: rest =>
     match n.toNat? with
